@@ -124,6 +124,11 @@ func hashStrings(ss []string) uint64 {
 // Case records one executed case. trace is the canonical description of the case (used for
 // distinctness and as a sample); classes are labels counted in the class histogram.
 func (s *Stats) Case(trace []string, nontrivial bool, classes ...string) {
+	s.CaseSample(trace, nil, nontrivial, classes...)
+}
+
+// CaseSample is Case with a separate, readable sample (key decides distinctness only).
+func (s *Stats) CaseSample(trace []string, sample []string, nontrivial bool, classes ...string) {
 	s.mu.Lock()
 	defer s.mu.Unlock()
 	if s.failed {
@@ -144,6 +149,9 @@ func (s *Stats) Case(trace []string, nontrivial bool, classes ...string) {
 			// keep the 1st, 2nd, 4th, 8th ... distinct non-trivial case, at most maxSamples
 			if n&(n-1) == 0 && len(s.Samples) < s.maxSamples+2 {
 				cp := append([]string(nil), trace...)
+				if sample != nil {
+					cp = append([]string(nil), sample...)
+				}
 				if len(cp) > 60 {
 					cp = append(cp[:60], fmt.Sprintf("... (%d more steps)", len(trace)-60))
 				}
